@@ -640,6 +640,68 @@ def run_tee_inputs(case):
   return R(None, n >= 2, (kind, n), count)
 
 
+
+# ------------------------------------------------ a hub that is dropped / teed while uses are alive
+DROP_INPUTS = OrderedDict([
+  ("list", lambda q: list(q)), ("generator", lambda q: (v for v in list(q))), ("stream-of-generator", lambda q: Stream(v for v in list(q))),
+  ("skipped-stream", lambda q: Stream([0] + list(q)).skip(1)), ("mapped-stream", lambda q: Stream(list(q)).map(lambda v: v)),
+  ("iterator", lambda q: iter(list(q))),
+])
+
+
+def gen_hub_life(run):
+  for kind in DROP_INPUTS:
+    for uses in (2, 3):
+      for taken in range(1, uses + 1):
+        for read_before in (0, 1, 2):
+          yield ("drop", kind, uses, taken, read_before)
+  for kind in DROP_INPUTS:
+    for uses in (1, 2, 3):
+      for n in (1, 2, 3):                # (no output, n = 0, looks at nothing)
+        yield ("tee", kind, uses, n, 0)
+
+
+def run_hub_life(case):
+  import gc, warnings
+  what, kind, uses, arg, read_before = case
+  seq = [7, 3, 9, 4]
+  hub = thub(DROP_INPUTS[kind](seq), uses)
+  if what == "drop":
+    # `arg` uses are taken, `read_before` items read from each; then the hub object itself goes away (helper
+    # scope ended, name rebound) with uses never taken: the uses handed out still see the whole sequence
+    outs = [Stream(hub) for _ in range(arg)]
+    got = [[next(iter(o)) for _ in range(read_before)] for o in outs]
+    with warnings.catch_warnings():
+      warnings.simplefilter("ignore")
+      del hub
+      gc.collect()
+    for g, o in zip(got, outs):
+      g.extend(list(o))
+    if any(g != seq for g in got):
+      return bad("hub:dropped", "uses handed out by a hub must see the whole sequence also after the hub object "
+                 "itself was dropped (input: %s)" % kind, [seq] * arg, got, True)
+    return R(None, arg < uses, ("drop", kind))
+  # tee of a hub is one use of it (tee iterates its argument): uses - 1 are left, then IndexError
+  try:
+    outs = lit.tee(hub, arg)
+  except Exception as exc:
+    return bad("hub:tee:exception", "tee(hub, n) raised", None, repr(exc)[:200], True)
+  left = 0
+  rest = []
+  for _ in range(uses + 2):
+    try:
+      rest.append(list(Stream(hub)))
+      left += 1
+    except IndexError:
+      break
+  got = [list(o) for o in outs]
+  if left != uses - 1:
+    return bad("hub:tee:uses", "tee(hub, n) takes exactly one use of the hub (a thub hands out exactly n uses)",
+               {"uses left": uses - 1}, {"uses left": left}, True)
+  if any(g != seq for g in got + rest):
+    return bad("hub:tee:value", "tee outputs and the remaining uses each see the whole sequence", seq, got + rest, True)
+  return R(None, True, ("tee", kind))
+
 # ------------------------------------------------------------ calling routes
 from ..routes import routes_agree
 
@@ -818,6 +880,8 @@ KINDS = OrderedDict([
   ("noniter", Kind(gen_noniter, run_noniter, rule="thub(x, n) is x for non-iterables")),
   ("tee-inputs", Kind(gen_tee_inputs, run_tee_inputs, chunk=8,
                       rule="tee of every kind of iterator (19 input kinds) x n 0..3 x every order of single-item consumption")),
+  ("hub-life", Kind(gen_hub_life, run_hub_life, chunk=8,
+                    rule="a hub dropped (garbage-collected) with uses never taken while uses handed out are still read; tee of a hub counted as one use")),
   ("call-routes", Kind(gen_routes, run_routes, chunk=1,
                        rule="each function with every documented parameter set: all positional / all keyword / every split must agree")),
   ("long", Kind(gen_long, run_long, chunk=20, rule="3-operation permutations with counts 64..2500 on streams of 5000 items / endless, list model")),
